@@ -465,6 +465,9 @@ pub struct ObjectSpec {
     /// instead of the ObjectDesc::create_from_* functions
     #[serde(default)]
     pub via_builder: bool,
+    /// an OpenTelemetry propagator entry (written into the FDT as an extra base64 attribute of the File)
+    #[serde(default)]
+    pub optel: Option<(String, String)>,
 }
 
 impl ObjectSpec {
@@ -491,6 +494,7 @@ impl ObjectSpec {
             source: SourceSpec::Buffer,
             use_handle: None,
             via_builder: false,
+            optel: None,
         }
     }
 
@@ -524,7 +528,7 @@ impl ObjectSpec {
             },
             transfer_start_time: self.start_ms.map(systime_ms),
             toi: None,
-            optel_propagator: None,
+            optel_propagator: self.optel.as_ref().map(|(k, v)| std::collections::HashMap::from([(k.clone(), v.clone())])),
             e_tag: self.etag.clone(),
             allow_immediate_stop_before_first_transfer: self.immediate_stop,
         })
